@@ -495,3 +495,28 @@ Qed.
 Example ok_pdata_inhabited :
   ok_pdata (PConstr 130 [PInt (2 ^ 100); PBytes (repeat 1 70); PMap [(PInt (-1), PList [])]]) = true.
 Proof. vm_compute. reflexivity. Qed.
+
+(** the entries of a map and the elements of a list are converted one by one, in the order
+    written, none merged and none dropped *)
+Theorem map_entries_in_order kvs d :
+  try_as_data (EMap kvs) = Ok d ->
+  exists ps, d = PMap ps /\
+    Forall2 (fun kv p => try_as_data (fst kv) = Ok (fst p) /\ try_as_data (snd kv) = Ok (snd p)) kvs ps.
+Proof.
+  cbn [try_as_data]. intros H.
+  match type of H with (kvs' <- ?e ;; _) = _ => destruct e as [ps| | |] eqn:E; cbn [obind] in H; try discriminate end.
+  injection H as <-. exists ps. split; [reflexivity|].
+  revert ps E. induction kvs as [|kv r IH]; intros ps E.
+  - injection E as <-. constructor.
+  - destruct (try_as_data (fst kv)) as [k| | |] eqn:Ek; cbn [obind] in E; try discriminate.
+    destruct (try_as_data (snd kv)) as [v| | |] eqn:Ev; cbn [obind] in E; try discriminate.
+    match type of E with (r' <- ?e ;; _) = _ => destruct e as [ps'| | |] eqn:Er; cbn [obind] in E; try discriminate end.
+    injection E as <-. constructor; [split; assumption|]. apply IH. reflexivity.
+Qed.
+Theorem list_elements_in_order xs d :
+  try_as_data (EList xs) = Ok d -> exists ds, d = PList ds /\ Forall2 (fun x p => try_as_data x = Ok p) xs ds.
+Proof.
+  cbn [try_as_data]. intros H.
+  destruct (omapM try_as_data xs) as [ds| | |] eqn:E; cbn in H; try discriminate.
+  injection H as <-. exists ds. split; [reflexivity|apply omapM_Forall2; exact E].
+Qed.
